@@ -4,6 +4,8 @@
 #include "c04_mulshift.h"
 #include "c08_stack.h"
 #include "c09_loops.h"
+#include "c10_addr.h"
+#include "c20_words.h"
 
 int main(int argc, char** argv) {
     verif::Args args = verif::Args::Parse(argc, argv);
@@ -15,6 +17,10 @@ int main(int argc, char** argv) {
             return c01::RunReplay(args.replay, res);
         if (args.replay.rfind("c01 gen", 0) == 0)
             return c01::RunGenReplay(args.replay, res);
+        if (args.replay.rfind("c20", 0) == 0)
+            return c20::RunReplay(args.replay, res);
+        if (args.replay.rfind("c10", 0) == 0)
+            return c10::RunReplay(args.replay, res);
         if (args.replay.rfind("c09", 0) == 0)
             return c09::RunReplay(args.replay, res);
         if (args.replay.rfind("c08", 0) == 0)
@@ -25,7 +31,11 @@ int main(int argc, char** argv) {
             return c03::RunReplay(args.replay, res);
         return 2;
     }
-    if (args.sub == "c09") {
+    if (args.sub == "c20") {
+        c20::Run(args, res);
+    } else if (args.sub == "c10") {
+        c10::Run(args, res);
+    } else if (args.sub == "c09") {
         c09::Run(args, res);
     } else if (args.sub == "c08") {
         c08::Run(args, res);
